@@ -25,6 +25,9 @@ CHECKS = {
  'C30': dict(cat='proof', tech='deductive: postconditions on the real BoundStatement.bind/_append_unset_value/routing_key, Statement._key_parts_packed/_set_routing_key and PreparedStatement.from_message/is_routing_key_index with abstract 4-byte column codecs; all marker-state assignments, both input forms and routing-key index sets enumerated as symbolic choices; bounded native enumeration with real Int32Type columns',
              text='For 3 bind markers every assignment of {value, null, explicit UNSET, missing}, by name and positionally, per protocol version and routing-key index set, with symbolic values: same serialized values in marker order, UNSET only from v4, rejected at routing-key markers, extra values rejected. Routing key == single component or the length-prefixed composite for component lengths 0/1/3/256 (thorough 65535) with symbolic leading bytes; from_message index order for all marker/partition-key orders listed. The number of markers is fixed at 3 (stated bound).',
              ref='DESIGN.md §4 C30'),
+ 'C34': dict(cat='other', tech='deductive: integer postconditions on the real util.Time (acceptance range, component decomposition, time-of-day conversion, comparisons), util.Date (day count, seconds, floor division for pre-1970 instants), uuid_from_time/min_uuid_from_time/max_uuid_from_time/unix_time_from_uuid1 over a symbolic instant, node and clock sequence (field packing, version/variant bits, Cassandra signed-byte bounds) with float products as reals; BOUNDED (exhaustive in the thorough tier) calendar and string round trips and binary64 time-uuid round trips',
+             text='Mixed: the integer clauses (Time accepts exactly one day of nanoseconds and decomposes/recomposes exactly; Date day counts; time-uuid timestamp, node, clock sequence, version bits and the min/max bounds in Cassandra order for every node and clock sequence) are proved for all values, with float products treated as real arithmetic (A-REAL). Date <-> yyyy-mm-dd for every day of years 1..9999 (thorough: every day; quick: every 13th), Time <-> string, and the binary64 behaviour of the uuid helpers over the whole 60-bit range are bounded stand-ins.',
+             ref='DESIGN.md §4 C34', note='Trusted base: pyvc (see other entries), A-REAL for three float operations in the uuid helpers, E-DATETIME / E-UUID library contracts; the bounded part is exploration, not proof.'),
  'C31': dict(cat='proof', tech='deductive: lock-invariant proof of MonotonicTimestampGenerator.__call__ for arbitrary clock and history + frame scan',
              text='Lock invariant (all returned timestamps <= last) proved preserved by __call__ for an arbitrary prior state and clock reading; '
                   'strict monotonicity across threads follows for lock-respecting schedules; unprotected reads/writes of `last` fail an obligation.',
